@@ -267,7 +267,7 @@ def run_store(tape, out, fs, root, estore, kind):
             op = 'flush'
         else:
             ops = ['append', 'append', 'flush', 'overwrite', 'delete', 'clear', 'reopen',
-                   'pickle', 'kill', 'delete', 'append', 'reopen_limited']
+                   'pickle', 'kill', 'delete', 'append', 'reopen_limited', 'refused_append']
             op = tape.choice('op', ops)
             if op == 'reopen_limited' and array_level:
                 op = 'reopen'
@@ -295,6 +295,32 @@ def run_store(tape, out, fs, root, estore, kind):
                 out.probes['truncate_then_append'] += 1
             model = new
             last_mut = 'append'
+        elif op == 'refused_append':
+            # a fault at the API: a batch the store must refuse (other dtype / other row shape).
+            # The operation fails, nothing is written, and the store keeps reporting exactly
+            # what it held - "may fail, never corrupt"
+            if limited[0]:
+                # with fewer batches exposed than the file holds, index n is an in-place
+                # overwrite, and numpy assignment casts instead of refusing
+                continue
+            why = tape.choice('refused_why', ['dtype', 'row_shape'])
+            if why == 'dtype':
+                other = 'i4' if f.dtype.kind in 'fc' else 'f8'
+                bad = Gen(other, rshape).rows(bs)
+            else:
+                bad = Gen(dtype, tuple(rshape) + (2,)).rows(bs)
+            h.begin('refused-append', [model])
+            try:
+                if array_level:
+                    store.append(bad)
+                else:
+                    store[n] = bad
+            except (ValueError, TypeError, IndexError):
+                out.probes['append_refused'] += 1
+            else:
+                out.violate('report', 'bad-batch-accepted', why=why, where='op %d' % h.j)
+                return info
+            h.end()
         elif op == 'overwrite':
             if array_level:
                 if total == 0:
